@@ -55,6 +55,29 @@ CLAIMED = {
             "metadata kept - decided for all pixel values.",
             '§2 C18', TRUST + "; zero_filter assumed identity on positive images; zero_filter, detrend, center_find "
             "outside the claim"),
+    'C12': ('model_checking',
+            "lnposterior = lnprior + lnlike, lnprior = sum of lnprob, -inf iff out of support / invalid scatterer / "
+            "constraint violated with NO forward call, Gaussian likelihood formula incl. noise precedence and "
+            "per-channel noise, forward == calc_holo incl. scaling and pixel subsets, history independence for reused "
+            "parameter lists - for ALL parameter vectors, data pixels and noise levels (path exploration over every "
+            "support branch).",
+            '§2 C12', TRUST + "; forward kernel = counting stub; log uninterpreted; RNG choice stub"),
+    'C05': ('model_checking',
+            "In-plane shift leaves every kernel argument unchanged (spherical and cylindrical kernels); rotation about "
+            "the axis turns cylindrical arguments into (rho, phi+psi, z); full rotation covariance, mirror symmetry and "
+            "x/y-polarization symmetry of MieLens.raw_fields for ALL angles, with the lens-pupil integrals uninterpreted.",
+            '§2 C05', TRUST + "; covariance of compiled Mie/Multisphere/T-matrix kernels and of Lens' phi quadrature "
+            "outside the claim"),
+    'C06': ('model_checking',
+            "field(Spheres) = sum of member fields with their own phases; each illumination channel (dict or labelled "
+            "array, permuted order) equals the single-channel result for that channel's wavelength/index/radius/"
+            "polarization; MieLens field linear in the polarization - for all symbolic values.",
+            '§2 C06', TRUST + "; per-sphere kernel uninterpreted; linearity of compiled kernels outside"),
+    'C08': ('model_checking',
+            "Aberrated calculator with zero coefficients (scalar/list/array of any length) == unaberrated phase and "
+            "radial integrals; aberrated phase formula; interpolation-mode dispatch total and rule-conforming; Lens "
+            "numexpr expression strings == NumPy branch term for term.",
+            '§2 C08', TRUST + "; MieLens vs Lens(Mie) numerical agreement and quadrature convergence outside"),
 }
 
 NOT_YET = {}
